@@ -78,6 +78,7 @@ type rcase struct {
 	GH      bool         `json:"gh"`    // gate inside the block hook and the local store read
 	Ops     []rop        `json:"ops"`
 	Pair    *pairSpec    `json:"pair,omitempty"`    // two-request family (pair.go); the fields above are unused then
+	Pool    *poolSpec    `json:"pool,omitempty"`    // worker-pool family (pool.go)
 	Backlog *backlogSpec `json:"backlog,omitempty"` // full-mailbox family (backlog.go)
 	Tags    []string     `json:"tags,omitempty"`
 }
@@ -761,12 +762,16 @@ func run(c *drv.Ctx) error {
 			}
 			cases, kinds = append(cases, rc), append(kinds, "corpus")
 		}
-		n := c.Count(144, 3000)
+		n := c.Count(128, 3000)
 		// streams of adjacent seeds of internal/rng are shifts of one another: decorrelate through one Fork
 		r := c.R.Fork()
 		for i := 0; i < n; i++ {
 			if i%8 == 7 {
 				cases, kinds = append(cases, genPair(r.Fork())), append(kinds, "random")
+				continue
+			}
+			if i%16 == 11 {
+				cases, kinds = append(cases, genPool(r.Fork())), append(kinds, "random")
 				continue
 			}
 			if i%16 == 3 {
@@ -781,6 +786,26 @@ func run(c *drv.Ctx) error {
 		// a driver that dies or hangs inside a case leaves the case behind for bin/check
 		if b, err := json.Marshal(rc); err == nil {
 			_ = os.WriteFile(filepath.Join(c.Out, "inflight.json"), b, 0o644)
+		}
+		if rc.Pool != nil {
+			pr := runPool(*rc.Pool)
+			if pr.hung {
+				time.Sleep(200 * time.Millisecond)
+				pr = runPool(*rc.Pool)
+				retried++
+			}
+			tags := []string{"kind:" + kinds[i], "pool", fmt.Sprintf("pool-workers-%d", rc.Pool.W)}
+			rc.Tags = tags
+			for j, q := range pr.reqs {
+				idx := w.Add(q.term(), rc, true, tags...)
+				if pr.hung {
+					w.Violation(idx, "the goroutines of the request manager never parked (10 s, twice): livelock", "reqlife-never-parked")
+				}
+				if pr.goViol != "" && j == len(pr.reqs)-1 {
+					w.Violation(idx, pr.goViol, "reqlife-pool-starved")
+				}
+			}
+			continue
 		}
 		if rc.Backlog != nil {
 			br := runBacklog(*rc.Backlog)
